@@ -6,10 +6,11 @@ sys.path.insert(0, os.path.join(V, "lib"))
 import registry
 props = [json.loads(l)["id"] for l in open(os.path.join(V, "properties.jsonl"))]
 na = json.load(open(os.path.join(V, "lib", "not_applicable.json")))
+ready = set(json.load(open(os.path.join(V, "lib", "ready.json"))))
 checks = []
 for pid in props:
     c = registry.CHECKS.get(pid)
-    if not c:
+    if not c or pid not in ready:
         continue
     checks.append({
         "property_id": pid,
@@ -24,6 +25,8 @@ for pid in props:
     })
 engines = {}
 for pid, c in registry.CHECKS.items():
+    if pid not in ready:
+        continue
     engines.setdefault(c.get("engine", ""), []).append(pid)
 man = {
     "version": 1,
@@ -34,7 +37,7 @@ man = {
     "engines": [{"name": e, "path": "/verif/coq/extract/%s" % e, "serves_properties": sorted(ps),
                  "kind_free_text": "Gallina model (coq/theories) + proofs (coq/proofs, coq/props) + extracted OCaml model driver; Go harness /verif/harness"} for e, ps in sorted(engines.items())],
     "checks": checks,
-    "not_applicable": [x for x in na if x["property_id"] not in registry.CHECKS],
+    "not_applicable": [x for x in na if x["property_id"] not in ready],
     "notes": "All checks: ./check <id> quick|thorough. Technique family: machine-checked proof in Coq 8.16.1 with a checked model<->code correspondence; see DESIGN.md.",
 }
 json.dump(man, open(os.path.join(V, "MANIFEST.json"), "w"), indent=1)
